@@ -634,6 +634,16 @@ def r7(ctx, rule="R7", sites=ROW_CLASS_SITES):
                 e = e.args[0]
             elif isinstance(e, ast.Subscript) and isinstance(e.value, ast.Call) and call_name(e.value) in ("np.where", "np.nonzero") and U(e.slice) == "0" and len(e.value.args) == 1:
                 e = e.value.args[0]
+            # M & <screen>.observation_mask: the observed rows among those of class M (the observed-only filter is another rule's clause)
+            def strip_observed(x):
+                if isinstance(x, ast.BinOp) and isinstance(x.op, ast.BitAnd):
+                    l_, r_ = strip_observed(x.left), strip_observed(x.right)
+                    if isinstance(r_, ast.Attribute) and r_.attr == "observation_mask":
+                        return l_
+                    if isinstance(l_, ast.Attribute) and l_.attr == "observation_mask":
+                        return r_
+                return x
+            e = strip_observed(e)
             cls = control_count_class(e, ids)
             var = f"rows fed to _update [{sel}]"
         elif var in ("<rows of the single-agent table>", "<rows excluded from the synergy table>"):
